@@ -75,7 +75,7 @@ func Corpus(maxLen int) []string {
 
 // Pinned inputs: witnesses of known findings and corner cases that must always be visited.
 var Pinned = []string{
-	"@test 'desc'", "@test", "@test a b", "@test 'x' { a; }", "foo @test", "a=b @test x", "! @test x", "{ @test x; }", "$(@test x)", "@test\\\n x", "coproc time @test\n", "coproc a @test b { c; }",
+	"@test 'desc'", "@test", "@test a b", "@test 'x' { a; }", "foo @test", "a=b @test x", "! @test x", "{ @test x; }", "$(@test x)", "@test\\\n x", "coproc time @test\n", "case x in (", "case x in\n(", "case x in a) b ;; (", "coproc a @test b { c; }",
 	"!", "/", "1 +", "(", "a=([i])",
 	"echo `", "foo `bar \" ${", "cat <<EOF\n$(", "a <<E\nb", "((", "[[ a", "${", "$((", "'", "\"", "f() {", "if a; then", "case x in", "a |", "a &&",
 }
